@@ -20,6 +20,37 @@ theorem C18_names_list (ns : List Nat) (h : ∀ n ∈ ns, n < 65536) :
     Impl.bootOrder (ns.flatMap le16) = ns.map Spec.fwBootName :=
   bootOrder_flatMap ns h
 
+/-- **Every BootOrder value, whatever its length** (F35 repair; false before it for every odd
+    length, where a last name was made up from the trailing byte and a zero filler): the decoded
+    names are exactly the firmware names of the complete little-endian 16-bit entries
+    (`Spec.entriesLE`, Model/Boot.lean), in order — `bs.length / 2` of them, so a trailing single
+    byte adds none. -/
+theorem C18_names_every (bs : Bytes) :
+    Impl.bootOrder bs = (Spec.entriesLE bs).map Spec.fwBootName ∧
+    (Impl.bootOrder bs).length = bs.length / 2 :=
+  ⟨bootOrder_entries bs, by rw [bootOrder_entries, List.length_map, entriesLE_length]⟩
+
+/-- The same without the auxiliary definition: the `k`-th name, for `k < bs.length / 2`, is the
+    firmware name of the little-endian 16-bit value at byte offset `2 * k`
+    (`le16At b o = byteAt b o + 256 * byteAt b (o + 1)`), and there are no other names. -/
+theorem C18_names_positions (bs : Bytes) :
+    Impl.bootOrder bs = (List.range (bs.length / 2)).map (fun k => Spec.fwBootName (le16At bs (2 * k))) := by
+  rw [bootOrder_entries, entriesLE_eq_range, List.map_map]; rfl
+
+/-- What `Spec.entriesLE` is: `bs.length / 2` values below 65536, the `k`-th one read at byte offset
+    `2 * k`; and it inverts the encoding of a list of 16-bit numbers. -/
+theorem C18_entries (bs : Bytes) :
+    Spec.entriesLE bs = (List.range (bs.length / 2)).map (fun k => le16At bs (2 * k)) ∧
+    (Spec.entriesLE bs).length = bs.length / 2 ∧
+    (∀ n ∈ Spec.entriesLE bs, n < 65536) ∧
+    (∀ ns : List Nat, (∀ n ∈ ns, n < 65536) → Spec.entriesLE (ns.flatMap le16) = ns) :=
+  ⟨entriesLE_eq_range bs, entriesLE_length bs, entriesLE_lt bs, entriesLE_flatMap⟩
+
+/-- A single byte behind complete entries is not an entry: it adds no name (F35 repair). -/
+theorem C18_trailing_byte (xs : Bytes) (a : UInt8) (h : xs.length % 2 = 0) :
+    Impl.bootOrder (xs ++ [a]) = Impl.bootOrder xs :=
+  bootOrder_append_single xs a h
+
 /-- The name is "Boot" followed by exactly four upper-case hexadecimal digits
     (`isUpperHex c` is `('0' ≤ c ∧ c ≤ '9') ∨ ('A' ≤ c ∧ c ≤ 'F')`).  The range hypothesis is kept
     to match the claim; the shape itself holds for every `n` (the proof does not use it). -/
@@ -87,6 +118,10 @@ example : ¬ (Impl.Node.generic [1, 9, 4, 0]).WF := by decide
 example : Spec.encodeLoadOption ⟨1, 6, ['A'], [.usb [3, 5, 6, 0] 2 0]⟩ =
     [1, 0, 0, 0, 6, 0, 0x41, 0, 0, 0, 3, 5, 6, 0, 2, 0, 0x7f, 0xff, 4, 0] := by decide
 example : Impl.bootOrder [0x01, 0x00, 0x1a, 0x2b] = ["Boot0001".toList, "Boot2B1A".toList] := by decide
+/-- odd lengths (F35): `17 00 61 00 ab` names Boot0017 and Boot0061 and nothing else; a single byte names nothing -/
+example : Impl.bootOrder [0x17, 0x00, 0x61, 0x00, 0xab] = ["Boot0017".toList, "Boot0061".toList] := by decide
+example : Impl.bootOrder [0xab] = [] := by decide
+example : Spec.entriesLE [0x17, 0x00, 0x61, 0x00, 0xab] = [0x17, 0x61] := by decide
 example : String.ofList (Spec.fwBootName 0xBEEF) = "BootBEEF" := by decide
 example : String.ofList (Impl.hdText 1 (le64 2048) (le64 4096) [0x78, 0x56, 0x34, 0x12] 1)
     = "HD(1,MBR,0x12345678,0x800,0x1000)" := by decide
@@ -97,6 +132,10 @@ example : String.ofList (Impl.pad8Hex 0x1f) = "0000001f" := by decide
 
 #print axioms C18_names
 #print axioms C18_names_list
+#print axioms C18_names_every
+#print axioms C18_names_positions
+#print axioms C18_entries
+#print axioms C18_trailing_byte
 #print axioms C18_name_shape
 #print axioms C18_name_injective
 #print axioms C18_load_option
